@@ -91,7 +91,8 @@ class Prop:
         toks = []
         n = rng.randrange(0, 10)
         vals = ["1", "2", "12", "a", "b", "ab", "3.5", "x1", "0"]
-        if rng.random() < 0.15:  # integer literals beyond 2**53 (exact as int, rounded by a detour through float), a float in exponent form
+        big = rng.random() < 0.15
+        if big:  # integer literals beyond 2**53 (exact as int, rounded by a detour through float), a float in exponent form
             vals = vals + ["9007199254740993", "1695388800000000123", "1e3"]
         for _ in range(n):
             r = rng.random()
@@ -112,12 +113,15 @@ class Prop:
             toks.append(rng.choice("||#"))
             if rng.random() < 0.12:
                 toks.append(rng.choice(["-", "-1", "(2)", "|"]))
-        return {"clock": rng.choice(["test", "historical"]), "string": "".join(toks), "timespan": rng.choice([1, 10, 10, 0.5, 0.1]),
+        sc = {"clock": rng.choice(["test", "historical"]), "string": "".join(toks), "timespan": rng.choice([1, 10, 10, 0.5, 0.1]),
                 "shift": rng.choice([0, 0, 0, 5, 0.5]), "lookup": rng.random() < 0.4, "form": rng.choice(["parse", "from_marbles", "cold", "hot"]), "schedulers": rng.choice([None, None, "other_at_subscribe", "subscribe_only"]),
                 "raise_stopped": rng.random() < 0.5, "sub_t": 203.25, "horizon": 1000,
                 # delivery forms: optionally a second, overlapping subscriber of the same observable, and an early unsubscription of the first
                 "sub2_off": rng.choice([None, None, 0.75, 3, 12.5, 40]), "unsub1_after": rng.choice([None, None, None, 2.25, 15, 33]),
                 "shift_abs": rng.random() < 0.3}  # hot: the shift is given as an absolute datetime (the same instant)
+        if big and sc["timespan"] == 10:
+            sc["timespan"] = 1  # 19-character tokens make long strings: keep every notification inside the horizon
+        return sc
 
     def execute(self, sc):
         out = Outcome()
